@@ -42,6 +42,24 @@ def rule_writers(rep: Report, repo: Repo) -> None:
             counted = any(c in norm(key) for c in counters)
             rep.check(fresh and counted, 'C16.WRITERS', fn, f'name {norm(key)[:60]}: non-identifier char={fresh}, counter {counters} in name={counted}', site,
                       expected='lexer-impossible prefix + running counter')
+            # the counter never goes back while the table lives: its only stores in the class are the `= <const>` of __init__ and the
+            # `+= 1` of this writer (a reset per segment would hand out the same names again: later labels overwrite earlier ones)
+            cls = 'PreprocessorData' if rel == PRE else 'BinaryData'
+            for cnt in [c for c in counters if c in norm(key)]:
+                others = []
+                for mname, fns in repo.methods(rel, cls).items():
+                    for st in ast.walk(fns[-1]):
+                        tgts = st.targets if isinstance(st, ast.Assign) else [st.target] if isinstance(st, (ast.AugAssign, ast.AnnAssign)) else []
+                        for t in tgts:
+                            for tt in (t.elts if isinstance(t, ast.Tuple) else [t]):
+                                if norm(tt) != cnt:
+                                    continue
+                                init_ok = mname == '__init__' and isinstance(st, (ast.Assign, ast.AnnAssign)) and isinstance(st.value, ast.Constant)
+                                inc_ok = mname == fn and isinstance(st, ast.AugAssign) and isinstance(st.op, ast.Add) and norm(st.value) == '1'
+                                if not (init_ok or inc_ok):
+                                    others.append(f'{cls}.{mname}:{st.lineno}: {norm(st)}')
+                rep.check(not others, 'C16.WRITERS', f'{fn}:counter {cnt} is monotone', str(others) if others else 'set once in __init__, +1 per name',
+                          site, expected='no other store to the counter')
 
 
 def rule_same_table(rep: Report, repo: Repo) -> None:
